@@ -18,6 +18,7 @@ EXPLANATION = (
     "(recomputed node id, signature length; pinned key lookup and validity window; checksum before signature); (4) SIBLINGS — "
     "every impl of WriteAuth::verify hands `record` to a verification primitive and accepts only under its verdict; (5) COVER — "
     "the address-bound id and its signed message read ip, key, salt and timestamp."
+    ' SignatureVerifier: every writer of the pinned-key table also updates any derived state (parsed-key cache, memo) that the verification path reads — otherwise a replaced key keeps verifying.'
 )
 NOT_DECIDED = "bit-flip behaviour of ML-DSA itself (trusted library); base64 / hex decoding; skademlia, sibling-broadcast and MLS verifiers (outside the property's named scope; recorded only)"
 ASSUMPTIONS = ["ant-quic / saorsa-pqc ML-DSA-65 is a correct signature scheme", "cfg(debug_assertions)=false facts describe the release build"]
